@@ -134,13 +134,11 @@ def r3(ctx, prop=P, rule="C10.R3"):
                 r = region(fa, ch["err"])
                 if (fname, t.get("callee")) in MISS_IDIOM and ch["how"] == "match":
                     # reviewed idiom: an out-of-bounds read under `allow_miss` is a miss, not a
-                    # failure.  Every match arm builds a Result that is then `?`-ed; re-verified
-                    # here: up to that `?` no storage operation happens, and the only arm on the
-                    # error side that builds an Ok value is dominated by the allow_miss edge.
+                    # failure.  Re-verified on every run, independent of how the arms are written
+                    # (a Result that is then `?`-ed, or early returns): every way from the error edge
+                    # to a further storage operation, an in-memory commit or an Ok result passes
+                    # BOTH the OutOfBounds arm of the match on the error AND the allow_miss==true edge.
                     am = [tr for _, o, tr, fl in bool_switches(fa, lambda o: strip(o)[0] == "field" and strip(o)[2] == "allow_miss")]
-                    br = [x for x, tt in fa.calls() if tt.get("callee") in BRANCH]
-                    r = fa.reach(ch["err"], avoiding=br, include_src=True)
-                    # the error kind that may be read as a miss: RandomAccessError::OutOfBounds only
                     oob_idx = None
                     for b_ in fa.live():
                         for st in b_.stmts:
@@ -153,14 +151,16 @@ def r3(ctx, prop=P, rule="C10.R3"):
                         for bb, o, tg, other in switch_edges_on(fa, lambda o: o[0] == "disc" and o[1][0] == "err" and s in call_root_bb(o[1][1])):
                             if oob_idx in tg:
                                 oob_edges.append(tg[oob_idx])
-                    for bb in r:
-                        for si, st in enumerate(fa.blocks[bb].stmts):
-                            if st["k"] == "assign" and st["rv"]["k"] == "agg" and st["rv"].get("name") == "std::result::Result" and st["rv"]["variant"] == "Ok":
-                                if not any(fa.dominates(a, bb) for a in am):
-                                    idiom_bad.append("%s: Ok built on the error side without the allow_miss test" % loc(fa, bb, si))
-                                elif not any(fa.dominates(e, bb) for e in oob_edges):
-                                    idiom_bad.append("%s: an error other than OutOfBounds is turned into a miss" % loc(fa, bb, si))
+                    gate = set(x for x in r if any(fa.dominates(a, x) for a in am) and any(fa.dominates(e, x) for e in oob_edges))
+                    if not am:
+                        idiom_bad.append("no allow_miss test on the error side")
+                    if not oob_edges:
+                        idiom_bad.append("the error kind is not matched against RandomAccessError::OutOfBounds")
+                    r = fa.reach(ch["err"], avoiding=gate, include_src=True) if ch["err"] not in gate else set()
                     note = " (reviewed idiom: only an OutOfBounds read under allow_miss is recorded as a miss)"
+                swallowed = [(bb, si) for bb, si, tv in ret_assigns(fa) if bb in r and is_agg(tv, "Ok", "std::result::Result")]
+                for bb, si in swallowed:
+                    idiom_bad.append("%s: an Ok result is built on the error side" % loc(fa, bb, si))
                 later = [x for x, tt in fa.calls() if x in r and (tt.get("callee") in RA_ALL or callee_of(tt) in S or callee_of(tt) in commit_callees)]
                 writes = [(bb, si, p) for bb, si, p in assign_sites_prefix(fa, "self") if bb in r]
                 good = not later and not writes and not idiom_bad and (any(x in r for x in fa.returns) or bool(note))
